@@ -254,7 +254,7 @@ func Run(r *rt.Run) error {
 		}
 	}
 	// length 3 over all six typings of both references
-	long3 := []string{"+", "/"}
+	long3 := []string{"+", "*", "/"}
 	if thorough {
 		long3 = []string{"+", "-", "*", "/", "%", "<", "==", "AND"}
 	}
@@ -387,7 +387,7 @@ func Run(r *rt.Run) error {
 	}
 
 	// ---- R: seeded random ASTs of depth 3 with random histories ----
-	nRandom := 2500
+	nRandom := 5000
 	if thorough {
 		nRandom = 30000
 	}
